@@ -45,7 +45,27 @@ THE SUBSET
               `bytes(...)`, `len(...)`: a slice kept in a variable would be an alias whose later contents the list
               model would get wrong, so that is outside the subset.
 
+  methods     a method `def m(self, ...)` of a class bound once at module level (no decorators, no metaclass keyword on
+              the class itself) is translated as a function of the attributes `self.x` it reads and of its other
+              parameters.  Python does not declare their types, so the request does (MethodSig / TLV_MODEL_METHODS):
+              each attribute and each un-annotated parameter gets one of int, byte string, bool, `key` (a str used as
+              a name / dictionary key: Lean String), `str` (text, seen through its UTF-8 encoding: Py.Str), `dict`
+              (name string -> int: the markers scratch map), "None or T", or "not used"; an attribute may instead be
+              fixed to True / False (one translation per value).  The attributes must be plain instance data (no
+              class-level definition of that name in the class or its bases in the module); `self` may only be read
+              through attributes; a return annotation may be missing (then all returns must agree).
+  with that   `x is None` / `x is not None` as the whole test of an `if` on an optional variable (a `match`; the variable
+              has its value type where it is not None); truthiness of a bool / optional bool / int / byte string;
+              `isinstance(x, int)` / `isinstance(x, str)` and tests on fixed attributes are DECIDED from the declared
+              types and only the branch that runs is translated; `True` / `False`; `k ** e` for a positive literal k;
+              f-strings of literal text and name strings (dictionary keys); `d[key]` and `d[key] = int` on the dict
+              (which is then returned like a written buffer); `x.encode('utf-8')` on text, `b.decode('utf-8')`;
+              `b[i] = <literal 0..255>`; `b[a:b] = x` on a buffer parameter (same-size case only, see Py.setSliceSameSize);
+              `x += f(...)` for a translated f.
+
 Python ints are Lean `Int`, byte strings are `List UInt8`, exceptions are `Except.error` of `Ndn.PyErr`.
+`PyErr.other` in a Py.* primitive marks an input on which CPython's behaviour is NOT modelled (it is never the result
+of a model function, so no equality theorem can hold there by accident).
 """
 import ast
 import os
@@ -67,6 +87,24 @@ LEAN_KEYWORDS = {'at', 'from', 'end', 'open', 'instance', 'type', 'fun', 'let', 
 
 INT = 'int'
 BYTES = 'bytes'
+BOOL = 'bool'        # True / False
+STR = 'str'          # a Python str used as TEXT: seen through its UTF-8 encoding (Py.Str)
+KEY = 'key'          # a Python str used as a dictionary key / name (Lean String): only built, compared, looked up
+DICT = 'dict'        # a dict from KEY to int (the `markers` scratch map): Py.Dict
+UNUSED = 'unused'    # a parameter the function must not mention (no Lean parameter is made for it)
+
+
+def opt(t):
+    """`None` or a value of type t"""
+    return ('opt', t)
+
+
+def is_tup(t):
+    return isinstance(t, tuple) and t[0] == 'tuple'
+
+
+def is_opt(t):
+    return isinstance(t, tuple) and t[0] == 'opt'
 
 
 def tup(ts):
@@ -78,6 +116,10 @@ def lean_type(t):
         return 'Int'
     if t == BYTES:
         return 'Bytes'
+    if t in (BOOL, STR, KEY, DICT):
+        return {BOOL: 'Bool', STR: 'Py.Str', KEY: 'String', DICT: 'Py.Dict'}[t]
+    if is_opt(t):
+        return f'(Option {lean_type(t[1])})'
     return '(' + ' × '.join(lean_type(x) for x in t[1]) + ')'
 
 
@@ -88,7 +130,16 @@ class Untranslatable(Exception):
 
 
 def ident(name):
+    """Lean identifier of a Python name, or of the attribute path `self.x` (a parameter `self_x` of the translation)"""
+    if name.startswith('self.'):
+        return 'self_' + name[5:]
     return f'«{name}»' if name in LEAN_KEYWORDS else name
+
+
+def lean_str(text):
+    if not all(32 <= ord(c) < 127 for c in text):
+        raise Untranslatable('string literal with characters outside printable ASCII')
+    return '"' + text.replace('\\', '\\\\').replace('"', '\\"') + '"'
 
 
 def fmt_widths(node):
@@ -170,6 +221,68 @@ class Sig:
             raise Untranslatable('return annotation that is not int / a byte-string type / a tuple of these', fn)
 
 
+class MethodSig(Sig):
+    """a method `cls.meth(self, ...)` translated as a function of the attributes of `self` it reads and of its other
+    parameters.  spec = {'attrs': {attribute: type}, 'static': {attribute: True / False}, 'params': {parameter: type}}:
+    the types under which the method is translated (Python does not declare them); parameters not listed get the type
+    of their annotation (`int`, a byte-string type, `dict`)."""
+
+    def __init__(self, cls_name, fn, spec, variant, consts=None):
+        self.cls_name = cls_name
+        self.spec = spec
+        self.variant = variant
+        self.static = dict(spec.get('static', {}))
+        super().__init__(fn, consts)
+        self.name = f'{cls_name}_{fn.name}' + (f'_{variant}' if variant else '')
+        self.lean_name = ident(self.name)
+
+    def _read(self):
+        fn = self.fn
+        if isinstance(fn, ast.AsyncFunctionDef):
+            raise Untranslatable('async def', fn)
+        if fn.decorator_list:
+            raise Untranslatable('decorated method', fn)
+        a = fn.args
+        if a.vararg or a.kwarg or a.kwonlyargs or a.posonlyargs or a.defaults:
+            raise Untranslatable('*args / **kwargs / keyword-only / positional-only / default parameters', fn)
+        if not a.args or a.args[0].arg != 'self':
+            raise Untranslatable('method whose first parameter is not `self`', fn)
+        attrs = []
+        for n in ast.walk(fn):
+            if isinstance(n, ast.Name) and n.id == 'self':
+                par = getattr(n, '_parent', None)
+                if not (isinstance(par, ast.Attribute) and par.value is n and isinstance(par.ctx, ast.Load)):
+                    raise Untranslatable('`self` used other than to read an attribute', n)
+                if par.attr in self.static:
+                    continue
+                if par.attr not in self.spec.get('attrs', {}):
+                    raise Untranslatable(f'attribute self.{par.attr} (not among the declared data attributes)', par)
+                if par.attr not in attrs:
+                    attrs.append(par.attr)
+        for x in sorted(attrs, key=list(self.spec['attrs']).index):
+            self.params.append(('self.' + x, self.spec['attrs'][x], None))
+        for p in a.args[1:]:
+            t = self.spec.get('params', {}).get(p.arg)
+            if t is None:
+                t = ann_type(p.annotation)
+                if t is None and isinstance(p.annotation, ast.Name) and p.annotation.id == 'dict':
+                    t = DICT
+            if t is None:
+                raise Untranslatable(f'parameter {p.arg!r} without a declared type', p)
+            if t == UNUSED:
+                if any(isinstance(n, ast.Name) and n.id == p.arg for n in ast.walk(fn)):
+                    raise Untranslatable(f'parameter {p.arg!r} is used (it is declared as not used)', p)
+                continue
+            self.params.append((p.arg, t, None))
+        self.ret = ann_type(fn.returns)       # None: inferred from the return statements (they must agree)
+
+
+def _set_parents(tree):
+    for n in ast.walk(tree):
+        for c in ast.iter_child_nodes(n):
+            c._parent = n
+
+
 def _is_struct_call(node, attr):
     return (isinstance(node, ast.Call) and isinstance(node.func, ast.Attribute) and node.func.attr == attr
             and isinstance(node.func.value, ast.Name) and node.func.value.id == 'struct')
@@ -213,10 +326,13 @@ def compute_mutated(sigs):
 
 
 class FnTranslator:
-    def __init__(self, sig, sigs, consts=None):
+    def __init__(self, sig, sigs, consts=None, module_binds=None):
         self.sig = sig
         self.sigs = sigs              # name in this module -> Sig (own functions and imported ones)
         self.consts = consts or {}    # module-level int constants
+        self.module_binds = module_binds or {}
+        self.static = getattr(sig, 'static', {})     # attributes of self with a value fixed by the specification
+        self.ptype = {p[0]: p[1] for p in sig.params}
         self.localbufs = set()        # local names bound to a fresh bytearray(n): buffers this function owns
         self.fresh = None
         self.ntmp = 0
@@ -233,8 +349,8 @@ class FnTranslator:
 
     def ret_type(self):
         t = lean_type(self.sig.ret)
-        for _ in self.mut:
-            t += ' × Bytes'
+        for m in self.mut:
+            t += ' × ' + lean_type(self.ptype[m])
         return f'Except PyErr ({t})' if self.mut else f'Except PyErr {t}'
 
     def ret_term(self, term):
@@ -246,6 +362,28 @@ class FnTranslator:
         n = self.tmp()
         pre.append(f'let {n} ← {rhs}')
         return n, t
+
+    def builtin(self, name, env, node):
+        """`name` is the Python builtin of that name here (not a local, not rebound in the module)"""
+        if name in env or name in self.module_binds:
+            raise Untranslatable(f'the builtin {name!r} is rebound', node)
+        return True
+
+    def self_attr(self, node):
+        """`self.x` -> 'x'"""
+        if isinstance(node, ast.Attribute) and isinstance(node.value, ast.Name) and node.value.id == 'self' \
+                and 'self' not in self.ptype:
+            return node.attr
+        return None
+
+    def path(self, node, env):
+        """a variable: a local / parameter name, or an attribute `self.x` that is a parameter of the translation"""
+        if isinstance(node, ast.Name) and node.id in env:
+            return node.id
+        a = self.self_attr(node)
+        if a is not None and 'self.' + a in env:
+            return 'self.' + a
+        return None
 
     def pure_expr(self, node, env, what):
         pre = []
@@ -273,7 +411,30 @@ class FnTranslator:
                 return self.int_lit(node), INT
             if isinstance(node.value, bytes):
                 return '([' + ', '.join(str(b) for b in node.value) + '] : Bytes)', BYTES
+            if node.value is True or node.value is False:
+                return ('true' if node.value else 'false'), BOOL
             raise Untranslatable(f'constant of type {type(node.value).__name__}', node)
+        if self.self_attr(node) is not None:
+            a = self.self_attr(node)
+            if a in self.static:
+                return ('true' if self.static[a] else 'false'), BOOL
+            if 'self.' + a in env:
+                return ident('self.' + a), env['self.' + a]
+            raise Untranslatable(f'attribute self.{a}', node)
+        if isinstance(node, ast.JoinedStr):
+            # an f-string of literal text and names of type KEY: a dictionary key
+            parts = []
+            for v in node.values:
+                if isinstance(v, ast.Constant) and isinstance(v.value, str):
+                    parts.append(lean_str(v.value))
+                elif isinstance(v, ast.FormattedValue) and v.format_spec is None and v.conversion == -1:
+                    x, t = self.pure_expr(v.value, env, 'f-string substitution')
+                    if t != KEY:
+                        raise Untranslatable('f-string substitution of something that is not a name string', node)
+                    parts.append(x)
+                else:
+                    raise Untranslatable('f-string with a format specification / conversion', node)
+            return '(' + ' ++ '.join(parts or ['""']) + ')', KEY
         if isinstance(node, ast.Name):
             if node.id == '_':
                 raise Untranslatable('reading the name `_`', node)
@@ -299,6 +460,9 @@ class FnTranslator:
             return self.binop(node, env, pre)
         if isinstance(node, ast.IfExp):
             c = self.test(node.test, env, pre)
+            if c is True or c is False:
+                # decided by the declared types: only the branch that runs is translated
+                return self.expr(node.body if c else node.orelse, env, pre)
             a, ta = self.pure_expr(node.body, env, 'conditional expression with a branch')
             b, tb = self.pure_expr(node.orelse, env, 'conditional expression with a branch')
             if ta != tb:
@@ -325,6 +489,11 @@ class FnTranslator:
                 raise Untranslatable('shift by a negative literal', node)
             return f"(Py.{'shl' if isinstance(op, ast.LShift) else 'shr'} {a} {r.value})", INT
         b, tb = self.expr(node.right, env, pre)
+        if isinstance(op, ast.Pow):
+            l = node.left
+            if not (isinstance(l, ast.Constant) and type(l.value) is int and l.value > 0 and tb == INT):
+                raise Untranslatable('** whose base is not a positive int literal (or whose exponent is not an int)', node)
+            return self.bind(pre, f'Py.powLit {l.value} {b}', INT)
         if ta == INT and tb == INT:
             if isinstance(op, (ast.Add, ast.Sub, ast.Mult)):
                 return f"({a} {'+' if isinstance(op, ast.Add) else '-' if isinstance(op, ast.Sub) else '*'} {b})", INT
@@ -365,11 +534,15 @@ class FnTranslator:
             return f'(Py.slice {x} {lo[0]} {hi[0]})', BYTES
         x, t = self.expr(node.value, env, pre)
         i, ti = self.expr(sl, env, pre)
+        if t == DICT:
+            if ti != KEY:
+                raise Untranslatable('dictionary key that is not a name string', node)
+            return self.bind(pre, f'Py.dictGet {x} {i}', INT)
         if ti != INT:
             raise Untranslatable('index that is not an int', node)
         if t == BYTES:
             return self.bind(pre, f'Py.bytesGet {x} {i}', INT)
-        if isinstance(t, tuple):
+        if is_tup(t):
             ts = t[1]
             if isinstance(sl, ast.Constant) and type(sl.value) is int and -len(ts) <= sl.value < len(ts):
                 k = sl.value % len(ts)
@@ -434,6 +607,16 @@ class FnTranslator:
                 raise Untranslatable('struct.pack_into argument types', node)
             pre.append(f"let {ident(b.id)} ← Py.packInto {ws} [{', '.join(v for v, _ in vals)}] {ident(b.id)} {o}")
             return None, None           # value None
+        if isinstance(f, ast.Attribute) and f.attr in ('encode', 'decode') and not node.keywords \
+                and len(node.args) == 1 and isinstance(node.args[0], ast.Constant) \
+                and str(node.args[0].value).lower().replace('_', '-') in ('utf-8', 'utf8') \
+                and self.self_attr(f) is None:
+            x, t = self.expr(f.value, env, pre, slice_ok=True)
+            if f.attr == 'encode' and t == STR:
+                return f'(Py.strEncodeUtf8 {x})', BYTES
+            if f.attr == 'decode' and t == BYTES:
+                return self.bind(pre, f'Py.bytesDecodeUtf8 {x}', STR)
+            raise Untranslatable(f".{f.attr}('utf-8') on a value of type {t}", node)
         if (isinstance(f, ast.Attribute) and f.attr == 'from_bytes' and isinstance(f.value, ast.Name)
                 and f.value.id == 'int' and 'int' not in env):
             # int.from_bytes(x, 'big') / int.from_bytes(x, byteorder='big'): unsigned, big-endian
@@ -447,6 +630,7 @@ class FnTranslator:
                 raise Untranslatable('int.from_bytes of something that is not a byte string', node)
             return f'(Py.intFromBytesBig {x})', INT
         if isinstance(f, ast.Name) and f.id in ('len', 'bytes', 'bytearray', 'memoryview', 'int') and f.id not in env:
+            self.builtin(f.id, env, node)
             if node.keywords or len(node.args) != 1:
                 raise Untranslatable(f'{f.id}() call shape', node)
             x, t = self.expr(node.args[0], env, pre, slice_ok=(f.id in ('len', 'bytes', 'bytearray')))
@@ -519,17 +703,33 @@ class FnTranslator:
 
     # ------------------------------------------------------------------ tests
     def test(self, node, env, pre):
+        """a Lean proposition (text), or True / False when the declared types decide the test"""
         if isinstance(node, ast.BoolOp):
-            parts = [self.test(node.values[0], env, pre)]
-            for v in node.values[1:]:
-                p2 = []
-                parts.append(self.test(v, env, p2))
-                if p2:
+            is_and = isinstance(node.op, ast.And)
+            parts = []
+            for k, v in enumerate(node.values):
+                p2 = pre if k == 0 else []
+                c = self.test(v, env, p2)
+                if p2 is not pre and p2:
                     raise Untranslatable('and / or whose later operand contains an operation that can raise', node)
-            return '(' + (' ∧ ' if isinstance(node.op, ast.And) else ' ∨ ').join(parts) + ')'
+                if c is (not is_and):
+                    # `x or True` / `x and False`: decided, provided nothing that can raise stands before it
+                    if parts:
+                        raise Untranslatable('and / or decided by a later operand', node)
+                    return c
+                if c is is_and:
+                    continue                      # neutral operand
+                parts.append(c)
+            if not parts:
+                return is_and
+            return parts[0] if len(parts) == 1 else '(' + (' ∧ ' if is_and else ' ∨ ').join(parts) + ')'
         if isinstance(node, ast.UnaryOp) and isinstance(node.op, ast.Not):
-            return f'(¬ {self.test(node.operand, env, pre)})'
+            c = self.test(node.operand, env, pre)
+            return (not c) if c is True or c is False else f'(¬ {c})'
         if isinstance(node, ast.Compare):
+            if len(node.ops) == 1 and isinstance(node.ops[0], (ast.Is, ast.IsNot)):
+                raise Untranslatable('`is` / `is not` other than as the whole test of an if statement on an optional '
+                                     'variable', node)
             items = [self.expr(node.left, env, pre)]
             for c in node.comparators:
                 p2 = pre if len(node.comparators) == 1 else []
@@ -545,7 +745,44 @@ class FnTranslator:
                     raise Untranslatable(f'comparison {type(op).__name__} between {ta} and {tb}', node)
                 out.append(f'{a} {sym} {b}')
             return '(' + ' ∧ '.join(out) + ')'
-        raise Untranslatable(f'test {type(node).__name__} (truthiness of a value is outside the subset)', node)
+        if isinstance(node, ast.Call) and isinstance(node.func, ast.Name) and node.func.id == 'isinstance':
+            self.builtin('isinstance', env, node)
+            if node.keywords or len(node.args) != 2 or not isinstance(node.args[1], ast.Name) \
+                    or node.args[1].id not in ('int', 'str'):
+                raise Untranslatable('isinstance other than isinstance(x, int) / isinstance(x, str)', node)
+            self.builtin(node.args[1].id, env, node)
+            _, t = self.pure_expr(node.args[0], env, 'isinstance argument')
+            if t in (INT, BOOL, STR, KEY, BYTES, DICT):
+                # decided by the declared type (bool is a subclass of int)
+                return t in ((INT, BOOL) if node.args[1].id == 'int' else (STR, KEY))
+            raise Untranslatable(f'isinstance on a value of type {t} (not decided by the declared types)', node)
+        # truthiness of a value
+        a = self.self_attr(node)
+        if a is not None and a in self.static:
+            return bool(self.static[a])
+        if isinstance(node, (ast.Name, ast.Attribute)):
+            x, t = self.pure_expr(node, env, 'test')
+            if t == BOOL:
+                return f'({x} = true)'
+            if t == opt(BOOL):
+                return f'({x} = some true)'
+            if t == INT:
+                return f'({x} ≠ 0)'
+            if t == BYTES:
+                return f'({x} ≠ [])'
+            raise Untranslatable(f'truthiness of a value of type {t}', node)
+        raise Untranslatable(f'test {type(node).__name__}', node)
+
+    def none_test(self, node, env):
+        """`x is None` / `x is not None` on an optional variable -> (variable, True when the test says None)"""
+        if isinstance(node, ast.Compare) and len(node.ops) == 1 and isinstance(node.ops[0], (ast.Is, ast.IsNot)) \
+                and isinstance(node.comparators[0], ast.Constant) and node.comparators[0].value is None:
+            pth = self.path(node.left, env)
+            if pth is not None and is_opt(env[pth]):
+                return pth, isinstance(node.ops[0], ast.Is)
+            if pth is not None:
+                raise Untranslatable(f'`is None` on {pth}, which is never None under the declared types', node)
+        return None
 
     # ------------------------------------------------------------------ statements
     def block(self, stmts, env, ind):
@@ -567,8 +804,10 @@ class FnTranslator:
                 x, t = self.call_top(s.value, env, pre)
             else:
                 x, t = self.expr(s.value, env, pre, slice_ok=True)
+            if self.sig.ret is None:
+                self.sig.ret = t                   # no annotation: the type of the first return, the others must agree
             if t != self.sig.ret:
-                raise Untranslatable(f'return of a value of type {t}, annotated {self.sig.ret}', s)
+                raise Untranslatable(f'return of a value of type {t}, annotated / elsewhere {self.sig.ret}', s)
             return [pad + l for l in pre] + [pad + self.ret_term(x)]
         if isinstance(s, ast.Raise):
             if s.cause is not None or s.exc is None:
@@ -614,7 +853,7 @@ class FnTranslator:
                 lines.append(pad + f'let {ident(tgt.id)} : {lean_type(t)} := {x}')
             elif isinstance(tgt, ast.Tuple) and all(isinstance(e, ast.Name) for e in tgt.elts):
                 names = [e.id for e in tgt.elts]
-                if not isinstance(t, tuple) or len(t[1]) != len(names):
+                if not is_tup(t) or len(t[1]) != len(names):
                     raise Untranslatable('tuple assignment whose sides do not match', s)
                 names_real = [n for n in names if n != '_']
                 if len(set(names_real)) != len(names_real):
@@ -632,8 +871,16 @@ class FnTranslator:
         if isinstance(s, ast.AugAssign):
             if not isinstance(s.target, ast.Name) or s.target.id in self.mut or s.target.id in self.localbufs:
                 raise Untranslatable('augmented assignment target', s)
-            x, t = self.binop(ast.copy_location(ast.BinOp(left=ast.Name(id=s.target.id, ctx=ast.Load()), op=s.op,
-                                                          right=s.value), s), env, pre)
+            if isinstance(s.value, ast.Call):
+                # `x += f(...)`: x is read first, but f cannot change an int variable; f may write to a buffer
+                sym = {ast.Add: '+', ast.Sub: '-', ast.Mult: '*'}.get(type(s.op))
+                y, ty = self.call_top(s.value, env, pre)
+                if sym is None or ty != INT or env.get(s.target.id) != INT:
+                    raise Untranslatable('augmented assignment with a call on the right that is not int arithmetic', s)
+                x, t = f'({ident(s.target.id)} {sym} {y})', INT
+            else:
+                x, t = self.binop(ast.copy_location(ast.BinOp(left=ast.Name(id=s.target.id, ctx=ast.Load()), op=s.op,
+                                                              right=s.value), s), env, pre)
             env[s.target.id] = t
             return [pad + l for l in pre] + [pad + f'let {ident(s.target.id)} : {lean_type(t)} := {x}'] + \
                 self.block(rest, env, ind)
@@ -643,26 +890,47 @@ class FnTranslator:
             x, t = self.call_top(s.value, env, pre)
             return [pad + l for l in pre] + self.block(rest, env, ind)
         if isinstance(s, ast.If):
-            c = self.test(s.test, env, pre)
             body_t = self.terminates(s.body)
             else_t = self.terminates(s.orelse)
             if body_t and else_t and rest:
                 raise Untranslatable('statements after an if whose branches all return / raise (unreachable code)', rest[0])
-            a = self.block(list(s.body) + ([] if body_t else rest), env, ind + 1)
-            b = self.block(list(s.orelse) + ([] if else_t else rest), env, ind + 1)
+            then_stmts = list(s.body) + ([] if body_t else rest)
+            else_stmts = list(s.orelse) + ([] if else_t else rest)
+            nar = self.none_test(s.test, env)
+            if nar is not None:
+                # `if x is None:` on an optional variable: a match; x has its value type where it is not None
+                pth, says_none = nar
+                env_some = dict(env)
+                env_some[pth] = env[pth][1]
+                none_stmts, some_stmts = (then_stmts, else_stmts) if says_none else (else_stmts, then_stmts)
+                return ([pad + f'match {ident(pth)} with', pad + '| none =>'] + self.block(none_stmts, env, ind + 1)
+                        + [pad + f'| some {ident(pth)} =>'] + self.block(some_stmts, env_some, ind + 1))
+            c = self.test(s.test, env, pre)
+            if c is True or c is False:
+                # decided by the declared types: only the branch that runs is translated
+                return [pad + l for l in pre] + self.block(then_stmts if c else else_stmts, env, ind)
+            a = self.block(then_stmts, env, ind + 1)
+            b = self.block(else_stmts, env, ind + 1)
             return [pad + l for l in pre] + [pad + f'if {c} then'] + a + [pad + 'else'] + b
         raise Untranslatable(f'statement {type(s).__name__}', s)
 
     def store(self, tgt, value, env, pad):
-        """`b[a:b] = x` / `b[a:] = x` on a local bytearray (which may change its size)"""
+        """`d[key] = int` on the markers dict; `b[i] = <byte literal>` on a buffer; `b[a:b] = x` on a buffer parameter
+        (same size only); `b[a:b] = x` / `b[a:] = x` on a local bytearray (which may change its size)"""
         if not (isinstance(tgt.value, ast.Name) and (tgt.value.id in self.mut or tgt.value.id in self.localbufs)):
-            raise Untranslatable('item / slice assignment to something that is not a buffer given by name', tgt)
+            raise Untranslatable('item / slice assignment to something that is not a buffer / dict given by name', tgt)
         b = tgt.value.id
         pre = []
         sl = tgt.slice
+        if env.get(b) == DICT:
+            k, tk = self.expr(sl, env, pre)
+            v, tv = self.expr(value, env, pre)
+            if tk != KEY or tv != INT:
+                raise Untranslatable('dictionary store that is not <name string> -> int', tgt)
+            return [pad + l for l in pre] + [pad + f'let {ident(b)} : Py.Dict := Py.dictSet {ident(b)} {k} {v}']
+        if env.get(b) != BYTES:
+            raise Untranslatable('item / slice assignment to something that is not a buffer', tgt)
         if isinstance(sl, ast.Slice):
-            if b not in self.localbufs:
-                raise Untranslatable('slice assignment to a buffer parameter (bytearray and memoryview differ there)', tgt)
             if sl.step is not None:
                 raise Untranslatable('slice assignment with a step', tgt)
             lo = self.expr(sl.lower, env, pre) if sl.lower is not None else ('(0 : Int)', INT)
@@ -672,9 +940,20 @@ class FnTranslator:
             v, tv = self.expr(value, env, pre, slice_ok=True)
             if lo[1] != INT or (hi is not None and hi[1] != INT) or tv != BYTES:
                 raise Untranslatable('slice assignment argument types', tgt)
+            if b not in self.localbufs:
+                # a parameter may be a bytearray (which would grow) or a memoryview (which raises): only the case
+                # where the slice has exactly the size of the value is modelled (Py.setSliceSameSize)
+                if hi is None:
+                    raise Untranslatable('slice assignment without an upper bound to a buffer parameter', tgt)
+                return [pad + l for l in pre] + \
+                    [pad + f'let {ident(b)} ← Py.setSliceSameSize {ident(b)} {lo[0]} {hi[0]} {v}']
             rhs = f'Py.setSliceFrom {ident(b)} {lo[0]} {v}' if hi is None else f'Py.setSlice {ident(b)} {lo[0]} {hi[0]} {v}'
             return [pad + l for l in pre] + [pad + f'let {ident(b)} : Bytes := {rhs}']
-        raise Untranslatable('item assignment `b[i] = x` (the order of its IndexError / ValueError checks is not modelled)', tgt)
+        i, ti = self.expr(sl, env, pre)
+        if not (isinstance(value, ast.Constant) and type(value.value) is int and 0 <= value.value <= 255) or ti != INT:
+            raise Untranslatable('item assignment `b[i] = x` where x is not a literal 0..255 (the order of its '
+                                 'IndexError / ValueError checks is not modelled)', tgt)
+        return [pad + l for l in pre] + [pad + f'let {ident(b)} ← Py.setItem {ident(b)} {i} {value.value}']
 
     def call_top(self, node, env, pre):
         return self.call(node, env, pre, top=True)
@@ -707,13 +986,21 @@ class FnTranslator:
         self.source_seg = source
         sig = self.sig
         env = {p[0]: p[1] for p in sig.params}
+        for p in sig.params:
+            if p[0].startswith('self.') and ident(p[0]) in self.used:
+                raise Untranslatable(f'the name {ident(p[0])} is used in the method (it stands for {p[0]} here)')
         lines = self.block(list(sig.fn.body), env, 1)
         params = ' '.join(f'({ident(n)} : {lean_type(t)})' for n, t, _ in sig.params)
         head = ast.get_source_segment(source, sig.fn).split('\n')[0].rstrip(':').strip()
         doc = f'/-- `{head}` ({relpath}:{sig.fn.lineno})'
+        if isinstance(sig, MethodSig):
+            doc = f'/-- `{sig.cls_name}.{sig.fn.name}`: `{head}` ({relpath}:{sig.fn.lineno})' + \
+                (f', translated for {sig.variant}' if sig.variant else '')
+            if sig.static:
+                doc += '; with ' + ', '.join(f'self.{k} = {v}' for k, v in sig.static.items())
         if self.mut:
             doc += ('; writes to ' + ', '.join(f'`{m}`' for m in self.mut)
-                    + ': the result is paired with the final contents of that buffer')
+                    + ': the result is paired with the final contents of that buffer / dict')
         doc += ' -/'
         return [doc, f'def {ident(sig.name)} {params} : {self.ret_type()} := do'] + lines
 
@@ -755,13 +1042,14 @@ def module_bindings(tree):
     return binds, dirty
 
 
-def translate_module(path, wanted, namespace, relpath, imports=None):
+def translate_module(path, wanted, namespace, relpath, imports=None, methods=None):
     """Lean text for the functions `wanted` (each after its callees) of the module at `path`.
     imports: {(level, module name): (sigs of that module as returned here, Lean prefix, Lean module to import)} - the
     sibling modules whose translated functions this module may call after `from <..module> import name`."""
     imports = imports or {}
     source = open(path, encoding='utf-8').read()
     tree = ast.parse(source)
+    _set_parents(tree)
     binds, dirty = module_bindings(tree)
 
     def stable(name):
@@ -823,7 +1111,7 @@ def translate_module(path, wanted, namespace, relpath, imports=None):
                     if n.func.id in stack:
                         raise Untranslatable('recursion')
                     visit(n.func.id, stack + [name])
-            tr = FnTranslator(s, sigs, consts)
+            tr = FnTranslator(s, sigs, consts, binds)
             lines = tr.translate(source, relpath)
             status[name] = None
             s.done = True
@@ -837,6 +1125,65 @@ def translate_module(path, wanted, namespace, relpath, imports=None):
             out.append('')
     for w in wanted:
         visit(w, [])
+
+    # ---- methods of classes: (class name, method name, variant or None, spec)  - see MethodSig
+    classes = {n.name: n for n in tree.body if isinstance(n, ast.ClassDef)}
+
+    def class_level_names(c, seen=()):
+        """names bound in the body of class c and of its base classes defined in this module"""
+        out_ = set()
+        for n in c.body:
+            if isinstance(n, (ast.FunctionDef, ast.AsyncFunctionDef, ast.ClassDef)):
+                out_.add(n.name)
+            for x in ast.walk(n) if not isinstance(n, (ast.FunctionDef, ast.AsyncFunctionDef, ast.ClassDef)) else []:
+                if isinstance(x, ast.Name) and isinstance(x.ctx, ast.Store):
+                    out_.add(x.id)
+        for b in c.bases:
+            if isinstance(b, ast.Name) and b.id in classes and b.id not in seen:
+                out_ |= class_level_names(classes[b.id], tuple(seen) + (c.name,))
+        return out_
+    for cls_name, meth, variant, spec in (methods or []):
+        full = f'{cls_name}_{meth}' + (f'_{variant}' if variant else '')
+        try:
+            if cls_name not in classes or not stable(cls_name):
+                raise Untranslatable(f'no class {cls_name} bound exactly once at module level')
+            c = classes[cls_name]
+            if c.decorator_list or c.keywords:
+                raise Untranslatable('decorated class / class with keyword arguments (metaclass)', c)
+            found = [n for n in c.body if isinstance(n, (ast.FunctionDef, ast.AsyncFunctionDef)) and n.name == meth]
+            others = [n for n in ast.walk(c) if isinstance(n, ast.Name) and isinstance(n.ctx, ast.Store) and n.id == meth]
+            if len(found) != 1 or others:
+                raise Untranslatable(f'{cls_name}.{meth} is not defined exactly once in the class body', c)
+            ms = MethodSig(cls_name, found[0], spec, variant, consts)
+            if ms.error:
+                raise Untranslatable(ms.error)
+            # the attributes read must be plain instance data: no class-level name (property, method, default) of
+            # that name in the class or its bases in this module, and no __getattr__ / __getattribute__ / __slots__
+            cl = class_level_names(c)
+            bad = [p[0][5:] for p in ms.params if p[0].startswith('self.') and p[0][5:] in cl] + \
+                [k for k in ms.static if k in cl] + \
+                [k for k in ('__getattr__', '__getattribute__', '__slots__') if k in cl]
+            if bad:
+                raise Untranslatable(f'attribute {bad[0]} has a class-level definition (not plain instance data)', c)
+            uses_struct = any(isinstance(n, ast.Name) and n.id == 'struct' for n in ast.walk(ms.fn))
+            if uses_struct and not struct_ok:
+                raise Untranslatable('`struct` is not the plainly imported standard module in this file')
+            allsigs = dict(sigs)
+            allsigs['<method>'] = ms
+            compute_mutated({'<method>': ms, **{k: v for k, v in sigs.items()}})
+            tr = FnTranslator(ms, sigs, consts, binds)
+            lines = tr.translate(source, relpath)
+            status[full] = None
+            ms.done = True
+            out.extend(lines)
+            out.append(f'def {ident(full)}_translated : Bool := true')
+            out.append('')
+        except Untranslatable as e:
+            status[full] = str(e)
+            out.append(f'/- `{cls_name}.{meth}`' + (f' ({variant})' if variant else '')
+                       + f' is NOT inside the translated subset: {e} -/')
+            out.append(f'def {ident(full)}_translated : Bool := false')
+            out.append('')
     out.append(f'end {namespace}')
     for k in defs:
         sigs[k].lean_name = namespace.split('.')[-1] + '.' + ident(k)      # for modules that import this one
@@ -850,6 +1197,29 @@ COMPONENT_WANTED = ['get_type', 'get_value', 'to_number', 'from_bytes', 'from_nu
                     'from_sequence_num', 'from_version', 'from_timestamp']
 
 
+# The field classes of tlv_model.py: the types under which their methods are translated.  `val` is what the class
+# documents as the value of the field (None when absent); `instance` is not used by these methods; `markers` holds
+# the int entries `<field name>##...` of the two-pass encoder.
+_UINT = {'attrs': {'type_num': INT, 'fixed_len': opt(INT), 'name': KEY}, 'params': {'val': opt(INT), 'instance': UNUSED}}
+_BOOL = {'attrs': {'type_num': INT, 'name': KEY}, 'params': {'val': opt(BOOL), 'instance': UNUSED}}
+_BYTES_B = {'attrs': {'type_num': INT, 'name': KEY}, 'static': {'is_string': False},
+            'params': {'val': opt(BYTES), 'instance': UNUSED}}
+_BYTES_S = {'attrs': {'type_num': INT, 'name': KEY}, 'static': {'is_string': True},
+            'params': {'val': opt(STR), 'instance': UNUSED}}
+_OTHER = {'attrs': {'type_num': INT, 'name': KEY}, 'params': {'val': opt(BYTES), 'instance': UNUSED}}
+TLV_MODEL_METHODS = (
+    [('UintField', m, None, _UINT) for m in ('encoded_length', 'encode_into', 'parse_from')]
+    + [('BoolField', m, None, _BOOL) for m in ('encoded_length', 'encode_into', 'parse_from')]
+    + [('BytesField', m, 'bytes', _BYTES_B) for m in ('encoded_length', 'encode_into', 'parse_from')]
+    + [('BytesField', m, 'str', _BYTES_S) for m in ('encoded_length', 'encode_into', 'parse_from')]
+    # asked for, to record why they are outside the subset (loops, dynamic dispatch, isinstance chains on values whose
+    # type is not declared): no theorem mentions them
+    + [(c, m, None, _OTHER) for c in ('NameField', 'ModelField', 'RepeatedField')
+       for m in ('encoded_length', 'encode_into', 'parse_from')])
+TLV_MODEL_REQUIRED = [f'{c}_{m}' + (f'_{v}' if v else '') for c, m, v, _ in TLV_MODEL_METHODS
+                      if c in ('UintField', 'BoolField', 'BytesField')]
+
+
 def _unreadable(rel, namespace, wanted, e):
     # the source cannot even be read: nothing is translated (and nothing that was translated before is kept)
     return '\n'.join([f'/- GENERATED by harness/py2lean.py: {rel} could not be read ({type(e).__name__}) -/',
@@ -858,7 +1228,7 @@ def _unreadable(rel, namespace, wanted, e):
 
 
 def generate_all(repo):
-    """{'TlvVar': text of lean/NdnGen/TlvVar.lean, 'Component': text of lean/NdnGen/Component.lean} for the tree at `repo`"""
+    """{'TlvVar': text of lean/NdnGen/TlvVar.lean, 'Component': ..., 'TlvModelFields': ...} for the tree at `repo`"""
     rel = 'src/ndn/encoding/tlv_var.py'
     relc = 'src/ndn/encoding/name/Component.py'
     sigs = {}
@@ -872,7 +1242,18 @@ def generate_all(repo):
         textc = textc.replace('open Ndn\n', 'open Ndn Ndn.Gen\n', 1)
     except (OSError, SyntaxError, ValueError, RecursionError) as e:
         textc = _unreadable(relc, 'Ndn.Gen.Component', COMPONENT_WANTED, e)
-    return {'TlvVar': text, 'Component': textc}
+    relm = 'src/ndn/encoding/tlv_model.py'
+    try:
+        textm, _, _ = translate_module(os.path.join(repo, relm), [], 'Ndn.Gen.TlvModelFields', relm,
+                                       imports={(1, 'tlv_var'): (sigs, 'TlvVar.', 'NdnGen.TlvVar')},
+                                       methods=TLV_MODEL_METHODS)
+        textm = textm.replace('open Ndn\n', 'open Ndn Ndn.Gen\n', 1)
+        if 'import NdnGen.TlvVar' not in textm:
+            textm = textm.replace('import NdnModel.PySem\n', 'import NdnModel.PySem\nimport NdnGen.TlvVar\n', 1)
+    except (OSError, SyntaxError, ValueError, RecursionError) as e:
+        textm = _unreadable(relm, 'Ndn.Gen.TlvModelFields', [f'{c}_{m}' + (f'_{v}' if v else '')
+                                                             for c, m, v, _ in TLV_MODEL_METHODS], e)
+    return {'TlvVar': text, 'Component': textc, 'TlvModelFields': textm}
 
 
 def generate(repo):
@@ -892,4 +1273,4 @@ def write_generated(repo):
 
 if __name__ == '__main__':
     _all = generate_all(sys.argv[1] if len(sys.argv) > 1 else os.environ.get('VERIF_REPO', '/repo'))
-    sys.stdout.write(_all[sys.argv[2]] if len(sys.argv) > 2 else _all['TlvVar'] + _all['Component'])
+    sys.stdout.write(_all[sys.argv[2]] if len(sys.argv) > 2 else ''.join(_all.values()))
